@@ -103,6 +103,52 @@ impl Interp {
                     Err(_) => "err".into(),
                 }
             }
+            ["s5.dec", kind, h] => {
+                use octo_squirrel::protocol::socks5::codec::*;
+                use tokio_util::codec::Decoder;
+                let Some(b) = unhex(h) else { return "bad-op".into() };
+                let mut src = BytesMut::from(&b[..]);
+                // encode the decoded message again to print its fields (the message fields are mostly private)
+                fn reenc(m: &mut dyn octo_squirrel::protocol::socks5::message::Socks5Message) -> Vec<u8> {
+                    let mut d = BytesMut::new();
+                    m.encode(&mut d);
+                    d.to_vec()
+                }
+                match *kind {
+                    "ireq" => match Socks5InitialRequestDecoder.decode(&mut src) {
+                        Ok(Some(mut m)) => {
+                            let e = reenc(&mut m);
+                            format!("ok methods={} rest={}", hex(&e[2..]), hex(&src))
+                        }
+                        Ok(None) => "more".into(),
+                        Err(_) => "err".into(),
+                    },
+                    "creq" => match Socks5CommandRequestDecoder.decode(&mut src) {
+                        Ok(Some(m)) => format!("ok cmd={} {} rest={}", m.command_type as u8, show_addr(&m.dst_addr), hex(&src)),
+                        Ok(None) => "more".into(),
+                        Err(_) => "err".into(),
+                    },
+                    "iresp" => match Socks5InitialResponseDecoder.decode(&mut src) {
+                        Ok(Some(m)) => format!("ok method={} rest={}", m.auth_method as u8, hex(&src)),
+                        Ok(None) => "more".into(),
+                        Err(_) => "err".into(),
+                    },
+                    "cresp" => match Socks5CommandResponseDecoder.decode(&mut src) {
+                        Ok(Some(m)) => format!("ok status={} {} rest={}", m.command_status as u8, show_addr(&m.bnd_addr), hex(&src)),
+                        Ok(None) => "more".into(),
+                        Err(_) => "err".into(),
+                    },
+                    "udp" => {
+                        let r = match Socks5UdpCodec.decode(&mut src) {
+                            Ok(Some((data, a))) => format!("ok {} data={}", show_addr(&a), hex(&data)),
+                            Ok(None) => "more".into(),
+                            Err(_) => "err".into(),
+                        };
+                        format!("{} rest={}", r, hex(&src))
+                    }
+                    _ => "bad-op".into(),
+                }
+            }
             ["vm.client", name, ..] => {
                 let (Some(u), Some(c), Some(cmd), Some(a)) = (kv(t, "uuid"), kv(t, "cipher"), kv(t, "cmd"), kv(t, "addr").and_then(parse_addr)) else { return "err".into() };
                 match crate::stream::vm::client(u, c, cmd == "udp", &a) {
